@@ -36,6 +36,12 @@ pub const PRIV_ESCALATION_CODE: u32 = 0xdead_0001;
 pub const READONLY_MODIFIED_CODE: u32 = 0xdead_0002;
 pub const UNBALANCED_CODE: u32 = 0xdead_0003;
 pub const EXTERNAL_MODIFIED_CODE: u32 = 0xdead_0005;
+/// transaction-level refusal: a writable account would be left rent-paying (the runtime's
+/// `TransactionError::InsufficientFundsForRent`); reported with instruction index = number of instructions
+pub const RENT_STATE_CODE: u32 = 0xdead_0006;
+/// the real system program's own error codes (`SystemError`)
+pub const SYSTEM_ACCOUNT_ALREADY_IN_USE: u32 = 0;
+pub const SYSTEM_RESULT_WITH_NEGATIVE_LAMPORTS: u32 = 1;
 
 /// Program id of the proxy ("called via CPI") program registered under an id that is on the
 /// receivership allow-list (Jupiter) and under an unknown id.
@@ -196,13 +202,13 @@ fn system(ais: &[AccountInfo], data: &[u8]) -> ProgramResult {
                 return Err(ProgramError::MissingRequiredSignature);
             }
             if **to.lamports.borrow() != 0 || to.data_len() != 0 || *to.owner != system_program::ID {
-                return Err(ProgramError::AccountAlreadyInitialized);
+                return Err(ProgramError::Custom(SYSTEM_ACCOUNT_ALREADY_IN_USE));
             }
             if *from.owner != system_program::ID || from.data_len() != 0 {
                 return Err(ProgramError::InvalidArgument);
             }
             if **from.lamports.borrow() < lamports {
-                return Err(ProgramError::InsufficientFunds);
+                return Err(ProgramError::Custom(SYSTEM_RESULT_WITH_NEGATIVE_LAMPORTS));
             }
             **from.lamports.borrow_mut() -= lamports;
             **to.lamports.borrow_mut() += lamports;
@@ -222,7 +228,7 @@ fn system(ais: &[AccountInfo], data: &[u8]) -> ProgramResult {
                 return Err(ProgramError::InvalidArgument);
             }
             if **from.lamports.borrow() < lamports {
-                return Err(ProgramError::InsufficientFunds);
+                return Err(ProgramError::Custom(SYSTEM_RESULT_WITH_NEGATIVE_LAMPORTS));
             }
             if from.key == to.key {
                 return Ok(());
@@ -237,7 +243,7 @@ fn system(ais: &[AccountInfo], data: &[u8]) -> ProgramResult {
                 return Err(ProgramError::MissingRequiredSignature);
             }
             if a.data_len() != 0 || *a.owner != system_program::ID {
-                return Err(ProgramError::AccountAlreadyInitialized);
+                return Err(ProgramError::Custom(SYSTEM_ACCOUNT_ALREADY_IN_USE));
             }
             a.realloc(space as usize, true)
         }
@@ -451,6 +457,48 @@ impl Vm {
             observe(i, self);
         }
         self.accts.remove(&sysvar_id);
+        // rent-state rule of the runtime: every writable account must end the transaction non-existent
+        // (0 lamports) or rent-exempt, unless it was already rent-paying with the same size and did not gain lamports
+        {
+            #[derive(PartialEq)]
+            enum Rs {
+                Uninit,
+                Paying(u64, usize),
+                Exempt,
+            }
+            let rent = solana_program::rent::Rent::default();
+            let st = |a: Option<&Arc<Acct>>| match a {
+                None => Rs::Uninit,
+                Some(a) if a.lamports == 0 => Rs::Uninit,
+                Some(a) if rent.is_exempt(a.lamports, a.data.len()) => Rs::Exempt,
+                Some(a) => Rs::Paying(a.lamports, a.data.len()),
+            };
+            let mut writable: std::collections::BTreeSet<Pubkey> = Default::default();
+            for ix in ixs {
+                for m in &ix.accounts {
+                    if m.is_writable {
+                        writable.insert(m.pubkey);
+                    }
+                }
+            }
+            for k in writable.iter() {
+                let (pre, post) = (snap.get(k), self.accts.get(k));
+                if let (Some(x), Some(y)) = (pre, post) {
+                    if Arc::ptr_eq(x, y) {
+                        continue;
+                    }
+                }
+                let ok = match (st(pre), st(post)) {
+                    (_, Rs::Uninit) | (_, Rs::Exempt) => true,
+                    (Rs::Paying(l0, s0), Rs::Paying(l1, s1)) => s0 == s1 && l1 <= l0,
+                    _ => false,
+                };
+                if !ok {
+                    self.accts = snap;
+                    return TxOutcome { ok: false, err: Some((ixs.len(), ProgramError::Custom(RENT_STATE_CODE))) };
+                }
+            }
+        }
         // purge zero-lamport accounts (end-of-transaction cleanup)
         let dead: Vec<Pubkey> = self.accts.iter().filter(|(_, a)| a.lamports == 0).map(|(k, _)| *k).collect();
         for k in dead {
